@@ -73,6 +73,7 @@ pub fn run(env: &Env) -> Report {
     let mut rep = Report::new("c04");
     for r in reps { rep.merge(r); }
     rep.merge(switching(env));
+    rep.merge(idle_no_value(env));
     // the layout FILE itself: generated documents read by serde_json (riti's steps), by the Lean reader and by riti (harness/src/layoutdoc.rs)
     rep.merge(riti_harness::layoutdoc::run(&env.a.out, &env.tsv, &env.scratch, &env.data, seed, env.quick()));
     rep.exhaustive = true;
@@ -127,6 +128,41 @@ fn switching(env: &Env) -> Report {
             }
             // keep the recorded history short: the replay only needs the updates and the last key
             s.events.retain(|e| e.starts_with("update"));
+        }
+        t.line(&format!("drop {}", id));
+    }
+    t.flush();
+    rep
+}
+
+/// "keys with an empty or missing assignment and keys outside the layout change nothing" — also while IDLE after earlier words, and
+/// also when the dictionary list is on (the engine then keeps the list of the last word around): a key without a value returns the
+/// empty suggestion, opens no session, and the next key starts a clean word
+fn idle_no_value(env: &Env) -> Report {
+    let mut rep = Report::new("c04");
+    let xdg = env.fresh_xdg("c04-idle");
+    let mut t = env.trace("c04.idle");
+    let lp = PROBHAT.to_string();
+    t.layout(&lp, &env.tsv);
+    for v in 0..4 {
+        t.line(&format!("case c04-idle-{}", v));
+        let mut opts = Opts::none(); opts.fixed_suggestion = v % 2 == 0; opts.english = v >= 2; opts.numpad = false;
+        let id = format!("i{}", v);
+        let mut s = match Sess::new(&mut t, &env.data, &id, &lp, opts, &xdg) { Some(s) => s, None => continue };
+        let novalue: Vec<(u16, u8)> = vec![(76, 0), (82, 0), (3612, 0), (3597, 0), (0xFFFF, 0), (58, 0), (83, 2)];   // number pad (option off), keypad Enter / Equals, codes outside the layout
+        for way in 0..5usize {
+            for (ki, (code, m)) in novalue.iter().enumerate() {
+                s.clear_events();
+                super::common::prelude(&mut s, &mut t, way, &super::common::ascii_keys("kl"));
+                let o = s.key(&mut t, *code, *m, 0);
+                let on = s.imp.ongoing();
+                rep.eval(Some(&format!("idle|{}|{}|{}", v, way, ki))); rep.count("idle-key-without-value");
+                if !o.is_empty_suggestion() || on {
+                    rep.violation("C04", "wrong-text-for-key", format!("a key without a value (code {}, modifier {}) pressed while idle (after a word that ended in way {}) returned {:?}, ongoing {}: it must change nothing", code, m, way, render_obs(&o, on), on),
+                        json!({"stream": "c04", "layout": lp, "opts": opts.bits_str(), "events": s.events}));
+                    if on { s.finish(&mut t); }
+                }
+            }
         }
         t.line(&format!("drop {}", id));
     }
